@@ -9,4 +9,13 @@ if HERE not in sys.path:
 from sim import driver  # noqa: E402
 
 if __name__ == "__main__":
-    sys.exit(driver.main(sys.argv[1:]))
+    try:
+        rc = driver.main(sys.argv[1:])
+    except SystemExit:
+        raise
+    except BaseException:       # harness trouble never masquerades as a verdict (exit 0 or 1)
+        import traceback
+        traceback.print_exc()
+        print("HARNESS-ERROR: uncaught exception in the driver", flush=True)
+        rc = 2
+    sys.exit(rc)
